@@ -28,6 +28,6 @@ CONSTANTS
   ChargeBeforeFit = FALSE
 SPECIFICATION Spec
 INVARIANTS TypeOK OneChargePerQuestion DropIsSilent ClientWithinBudget NoSharedBucket RememberedIsOwn ExemptNeverLimited
-  ReplyCookieIsOwn AnswerCarriesCookie BadCookieSound VerifiedIsFree HandoffOnlyInline SameOutcomeAcrossEntries
+  ReplyCookieIsOwn AnswerCarriesCookie BadCookieSound VerifiedIsFree HandoffOnlyInline SameOutcomeAcrossEntries CookieRemembered
 PROPERTIES DropLeavesNoTrace EvictionOnlyResets BucketIsolation ExemptUntouched TokensNeverRefillWithoutTime
 CHECK_DEADLOCK FALSE
